@@ -55,8 +55,22 @@ def _bucket(e):
     return "%s@%s" % (type(e).__name__, fr)
 
 
+def check_with_twins(case, fenced=True):
+    """The case itself, then its look-alike twins in the same process (state carried across calls)."""
+    r = check_case(case, fenced)
+    if r:
+        return r
+    for t2 in semcheck.lookalike_twins(from_json(case["term"])):
+        c2 = {k: v for k, v in case.items() if not k.startswith("_")}
+        c2["term"] = to_json(t2)
+        r = check_case(c2, fenced)
+        if r:
+            return ("after-lookalike:" + r[0], "after %r: %s" % (printer.render(from_json(case["term"])), r[1]))
+    return None
+
+
 def replay(case):
-    return check_case(dict(case), fenced=False)
+    return check_with_twins(dict(case), fenced=False)
 
 
 signature = c01.signature
@@ -64,7 +78,7 @@ signature = c01.signature
 
 def shrink(case, bucket):
     case = {k: v for k, v in case.items() if not k.startswith("_")}
-    return semcheck.shrink_case(case, bucket, fragment(), lambda c: check_case(dict(c)), budget=200)
+    return semcheck.shrink_case(case, bucket, fragment(), lambda c: check_with_twins(dict(c)), budget=200)
 
 
 def plan(tier, seed, scale):
@@ -79,7 +93,7 @@ def run_task(task, seed, acc):
 
     def one(case):
         t = from_json(case["term"])
-        r = check_case(case)
+        r = check_with_twins(case)
         stats = case.pop("_stats", {"decided": 0, "undecided": 0})
         nt = count_ops(t) >= 2 and stats.get("decided", 0) >= 1
         acc.case(key=digest([printer.render(t, c01.style_of(case)), case["rows"]]), nontrivial=nt,
